@@ -149,6 +149,34 @@ pub fn parse(buf: &[u8]) -> R<Node> {
 }
 
 impl Node {
+    /// a node that is serialised verbatim (used to splice hand-written items into a parsed tree)
+    pub fn verbatim(bytes: &[u8]) -> Node {
+        Node { kind: Kind::Simple(bytes.to_vec()), start: 0, end: 0, width: 0 }
+    }
+    pub fn untag_mut(&mut self) -> &mut Node {
+        match self.kind {
+            Kind::Tag(_, ref mut inner) => inner.untag_mut(),
+            _ => self,
+        }
+    }
+    /// the value of an integer-keyed map entry, inserted (as an empty definite array) when missing
+    pub fn map_entry_array(&mut self, key: u8) -> Option<&mut Vec<Node>> {
+        if let Kind::Map(items, _) = &mut self.kind {
+            let pos = items.iter().position(|(k, _)| matches!(k.kind, Kind::UInt(x) if x == key as u64));
+            let pos = match pos {
+                Some(p) => p,
+                None => {
+                    let arr = Node { kind: Kind::Array(vec![], false), start: 0, end: 0, width: 0 };
+                    items.push((Node::verbatim(&[key]), arr));
+                    items.len() - 1
+                }
+            };
+            if let Kind::Array(v, _) = &mut items[pos].1.untag_mut().kind {
+                return Some(v);
+            }
+        }
+        None
+    }
     pub fn raw<'a>(&self, buf: &'a [u8]) -> &'a [u8] {
         &buf[self.start..self.end]
     }
